@@ -39,6 +39,10 @@ Layers (bound iteration by sequence length n):
            x {== 0, !, + 1, < 1, defined() &&, || 0, bare, != 0}: the leftover counts as 0
     numlit  the same with integer-literal spellings (10L, 10u, 0x10, 0X1F, 010, 1'000, 'a',
            0b11, 10ULL, 0xeL) x {== value, == value+1, > value-1}
+    defspell  the same with the `defined` operator spelled {defined X, defined(X),
+           defined ( X ), defined<TAB>X} x context {bare, (..), ( .. ), ((..)), !(..), !..,
+           (.. && 1), (1 && ..), (.. || 0), (0 || ..), (..) ? 1 : 0, !(..) || (1 && ..)} x
+           X in {defined, undefined, defined empty, defined as another name, function-like}
     spell  core sequences with the directives spelled `  #   if\tc` / `#if /* #endif */ c // #else`
 """
 import functools
@@ -88,8 +92,29 @@ for _sp, _v in _NUMS:
     NUMLIT.append(("num%s==" % _sp, "%s == %d" % (_sp, _v), (lambda s: True)))
     NUMLIT.append(("num%s==+1" % _sp, "%s == %d" % (_sp, _v + 1), (lambda s: False)))
     NUMLIT.append(("num%s>" % _sp, "%s > %d" % (_sp, _v - 1), (lambda s: True)))
-CTEXT = {n: t for n, t, _ in CONDS + SELFREF + NUMLIT}
-CEVAL = {n: f for n, _, f in CONDS + SELFREF + NUMLIT}
+# the `defined` operator: spelling x context x kind of name
+_DSP_SPELL = [("bare", "defined %s"), ("paren", "defined(%s)"), ("spaced", "defined ( %s )"),
+              ("tab", "defined\t%s")]
+_DSP_CTX = [("bare", "%s", False), ("p1", "(%s)", False), ("p1s", "( %s )", False),
+            ("p2", "((%s))", False), ("notp", "!(%s)", True), ("not", "!%s", True),
+            ("and-first", "(%s && 1)", False), ("and-last", "(1 && %s)", False),
+            ("or-first", "(%s || 0)", False), ("or-last", "(0 || %s)", False),
+            ("tern", "(%s) ? 1 : 0", False), ("mixed", "!(%s) || (1 && %s)", None)]
+# @DM defined as 1, @UM undefined, @EM defined as empty, @AL defined as the (undefined) name
+# @UM, @FN function-like: `defined` never expands its operand
+_DSP_NAME = [("def", "@DM", True), ("undef", "@UM", False), ("empty", "@EM", True),
+             ("alias", "@AL", True), ("fn", "@FN", True)]
+DEFSPELL = []
+for _sn, _st in _DSP_SPELL:
+    for _cn, _ct, _neg in _DSP_CTX:
+        for _nn, _nt, _val in _DSP_NAME:
+            _term = _st % _nt
+            _v = True if _neg is None else (_val != _neg)
+            DEFSPELL.append(("dsp.%s.%s.%s" % (_sn, _cn, _nn), _ct.replace("%s", _term),
+                             (lambda v: (lambda s: v))(_v)))
+_EXTRA = SELFREF + NUMLIT + DEFSPELL
+CTEXT = {n: t for n, t, _ in CONDS + _EXTRA}
+CEVAL = {n: f for n, _, f in CONDS + _EXTRA}
 
 FULL_OP = ["if:" + n for n, _, _ in CONDS] + ["ifdef", "ifndef"]
 FULL_EL = ["elif:" + n for n, _, _ in CONDS] + ["elifdef", "elifndef"]
@@ -275,8 +300,9 @@ def directive_text(sym, K, spell=None):
         d, a = sym, ""
     else:
         d, c = sym.split(":", 1)
-        a = CTEXT[c].replace("@A", "A" + K).replace("@B", "B" + K) \
-            .replace("@X", "X" + K).replace("@Y", "Ya" + K).replace("@F", "F" + K)
+        a = CTEXT[c]
+        for ph in ("AL", "DM", "UM", "EM", "FN", "Y", "X", "F", "A", "B"):   # longest first
+            a = a.replace("@" + ph, ("Ya" if ph == "Y" else ph) + K)
     if spell == "ws":          # blanks before and after the #, tab before the arguments
         return ("  #   %s\t%s  " % (d, a)).rstrip("\t") if a else "  #   %s  " % d
     if spell == "cmt":         # comments after the directive name / the arguments
@@ -292,6 +318,9 @@ def render(c, k):
     L = []
     if var.startswith("d"):
         L += ["#define A%s 2" % K, "#define B%s 1" % K]
+    if any(":dsp." in sym for sym in seq):
+        L += ["#define DM%s 1" % K, "#define EM%s" % K, "#define AL%s UM%s" % (K, K),
+              "#define FN%s(x) x" % K]
     if any(":self" in sym for sym in seq):
         L += ["#define X%s X%s" % (K, K), "#define Ya%s Yb%s" % (K, K),
               "#define Yb%s Ya%s" % (K, K), "#define F%s(x) F%s" % (K, K)]
@@ -518,6 +547,7 @@ def layers_for(tier):
         if n <= nself:
             plan.append((n, "selfref", lambda n=n: dev1(core(n), [c for c, _, _ in SELFREF])))
             plan.append((n, "numlit", lambda n=n: dev1(core(n), [c for c, _, _ in NUMLIT])))
+            plan.append((n, "defspell", lambda n=n: dev1(core(n), [c for c, _, _ in DEFSPELL])))
         if n <= nspell:
             plan.append((n, "spell", lambda n=n: core(n)))
     return plan
